@@ -138,6 +138,16 @@ AbsS(s) ==
   ELSE IF s.x[1] < 0 THEN Neg(s)
   ELSE IF s.dx[1] = 0 THEN s ELSE Undef
 
+\* square root of a non-negative rational x/d = sqrt(x d)/d ;  d sqrt(s) = ds / (2 sqrt(s))
+SqrtS(s) ==
+  IF ~Fits(s) \/ ~IsS(s) \/ s.n # 1 \/ s.x[1] < 0 THEN Undef
+  ELSE IF s.x[1] = 0 THEN (IF s.dx[1] = 0 THEN s ELSE Undef)
+  ELSE LET q == s.x[1] * s.d IN
+       IF q > NormBound THEN Undef
+       ELSE LET m == SqM(q)  r == SqR(q) IN
+            IF ~ProdOK(2, 1, m * r, s.d) THEN Undef
+            ELSE Mk("s", r, 2 * s.d * m * r, <<2 * m * m * r>>, <<s.dx[1] * s.d>>)
+
 SignS(s) ==
   IF IsU(s) \/ ~IsS(s) \/ s.x[1] = 0 THEN Undef
   ELSE IntS(IF s.x[1] > 0 THEN 1 ELSE -1)
@@ -156,11 +166,11 @@ LeafDVec(A, i) == VecD(A[2][i], <<0, 0, 0>>)     \* the leaf "derivative of vect
 LeafScal(A, j) == ScalD(A[3][j], A[4][j])
 
 Arity(op) == CASE op \in {"vec", "dvec", "scal", "int"} -> 0
-               [] op \in {"neg", "norm", "pow", "abs", "sign"} -> 1
+               [] op \in {"neg", "norm", "pow", "abs", "sign", "sqrt"} -> 1
                [] op = "mixed" -> 3
                [] OTHER -> 2
 
-OpNames == {"vec", "dvec", "scal", "int", "neg", "norm", "pow", "abs", "sign", "mixed",
+OpNames == {"vec", "dvec", "scal", "int", "neg", "norm", "pow", "abs", "sign", "sqrt", "mixed",
             "addv", "adds", "scalev", "muls", "dot", "cross"}
 
 \* result of one node applied to the top of the stack st (Undef when ill-typed or outside the domain)
@@ -180,6 +190,7 @@ NodeVal(A, st, tok) ==
          [] op = "pow"    -> Pow(T(0), k)
          [] op = "abs"    -> AbsS(T(0))
          [] op = "sign"   -> SignS(T(0))
+         [] op = "sqrt"   -> SqrtS(T(0))
          [] op = "addv"   -> IF IsV(T(1)) /\ IsV(T(0)) THEN Add(T(1), T(0)) ELSE Undef
          [] op = "adds"   -> IF IsS(T(1)) /\ IsS(T(0)) THEN Add(T(1), T(0)) ELSE Undef
          [] op = "scalev" -> IF IsS(T(1)) /\ IsV(T(0)) THEN Mul(T(1), T(0)) ELSE Undef
